@@ -1,5 +1,6 @@
 import IstioModel.Common.Wire
 import IstioModel.C14.Snapshot
+import IstioModel.C14.Kernels
 
 /-!
 Line-protocol driver of C14.
@@ -69,8 +70,44 @@ def verdict (s : Snapshot) : String :=
   | none => "ok"
   | some (c, d) => s!"bad {c.tok} {" ".intercalate (d.map enc)}"
 
+/-! ## kernel streams -/
+
+def sortDedup (l : List String) : List String :=
+  let s := l.mergeSort (fun a b => !(b < a))
+  s.foldr (fun x acc => match acc with
+    | y :: _ => if x = y then acc else x :: acc
+    | [] => [x]) []
+
+def encSet (l : List String) : String := encList (sortDedup l)
+
 structure DState where
-  dummy : Nat := 0
+  /-- stream `domains`: the shared vhdomains set and the known FQDNs of the case -/
+  vh    : List String := []
+  known : List String := []
+
+def showNamed (l : List NamedCluster) : String :=
+  encList (l.map (fun c => c.1 ++ "#" ++ toString c.2))
+
+def indexed (l : List String) : List NamedCluster :=
+  (l.zipIdx).map (fun p => (p.1, p.2))
+
+def stepKernel (d : DState) (toks : List String) : Option (DState × String) :=
+  match toks with
+  | ["known", k] => some ({ d with known := decList k }, "ok")
+  | ["dd", doms, exp] =>
+    let ds := decList doms
+    let e := decList exp
+    let kept := dedupeKept e d.known ds d.vh
+    let vh' := dedupeSet e d.known ds d.vh
+    some ({ d with vh := vh' }, s!"{encList kept} | {encSet vh'}")
+  | ["nc", names] => some (d, showNamed (normalizeClusters (indexed (decList names))))
+  | ["nr", names] => some (d, showNamed (normalizeClusters (indexed (decList names))))
+  | ["eds", req, unk] =>
+    let r := decList req
+    let u := (decList unk).filter (fun n => r.contains n)
+    some (d, s!"names={encSet (answered r)} empty={encSet u}")
+  | ["rds", _, req] => some (d, s!"names={encSet (answered (decList req))}")
+  | _ => none
 
 def stepMon (toks : List String) : Option String :=
   match toks with
@@ -85,8 +122,15 @@ end IstioModel.C14
 namespace IstioModel.C14
 
 def stepD (d : DState) (toks : List String) : DState × String :=
-  match stepMon toks with
-  | some o => (d, o)
-  | none => (d, "-")
+  match toks with
+  | "case" :: _ :: "snapshot" :: _ => (d, "-")
+  | "case" :: _ => ({}, "ok")
+  | _ =>
+    match stepMon toks with
+    | some o => (d, o)
+    | none =>
+      match stepKernel d toks with
+      | some r => r
+      | none => (d, "-")
 
 end IstioModel.C14
